@@ -588,9 +588,10 @@ func (in *inliner) processList(list []ast.Stmt, stack []*types.Func, sites []tok
 
 // threadInfo: the if statement that follows an assignment from an inlined call and tests one of the assigned variables.
 type threadInfo struct {
-	ifs     *ast.IfStmt
-	sink    int  // index of the tested left-hand side
-	whenSet bool // true: the Body runs when the variable is non-nil / true
+	ifs          *ast.IfStmt
+	sink         int  // index of the tested left-hand side
+	whenSet      bool // true: the Body runs when the variable is non-nil / true
+	freeContinue bool // the if statement continues a loop that is around it
 }
 
 // threadable recognises `if v != nil`, `if v == nil`, `if v`, `if !v` where v is one of the assigned identifiers.
